@@ -1163,6 +1163,8 @@ struct KnownRun {
 	always_ok: bool,
 	/// line domain: `node` (verdicts compared as model observables) or `wnode` (as spec values)
 	dom: &'static str,
+	/// header tokens carry the header's hash-mode bytes and its prev_root (`rnode` ops)
+	full: bool,
 }
 
 impl KnownRun {
@@ -1173,7 +1175,7 @@ impl KnownRun {
 	/// a header as delivered, with the answers of the cycle verifier and of the root comparison
 	fn fhdr(&self, h: &BlockHeader) -> String {
 		let powok = self.always_ok || pc(|| pow::verify_size(h).is_ok()).unwrap_or(false);
-		format!(
+		let t = format!(
 			"{}:{}:{}:{}:{}:{}",
 			h64(&h.hash()),
 			h64(&h.prev_hash),
@@ -1181,7 +1183,13 @@ impl KnownRun {
 			if powok { 1 } else { 0 },
 			if self.rootok(h) { 1 } else { 0 },
 			show_hdr(h)
-		)
+		);
+		if self.full {
+			// the header in hash mode (what the header MMR hashes behind the position) and prev_root
+			format!("{}:{}:{}", t, hex(&h.pow.proof.pack_nonces()), hex(&h.prev_root.to_vec()))
+		} else {
+			t
+		}
 	}
 
 	fn state(&self, out: &mut Out, id: &str, c: &Chain) -> String {
@@ -1419,6 +1427,7 @@ fn run_known(out: &mut Out, rng: &mut Rng, thorough: bool) {
 		sync_calls: 0,
 		always_ok: false,
 		dom: "node",
+		full: false,
 	};
 	let sid = "s";
 	out.line(&format!("cons node {} new {}", sid, kr.fhdr(&genesis.header)), "ok");
@@ -1979,6 +1988,7 @@ fn run_dbwin(out: &mut Out, rng: &mut Rng, thorough: bool) {
 			sync_calls: 1,
 			always_ok: true,
 			dom: "wnode",
+			full: false,
 		};
 		let mut genesis = match ct {
 			ChainTypes::Mainnet => genesis::genesis_main(),
@@ -2232,6 +2242,272 @@ fn run_dbwin(out: &mut Out, rng: &mut Rng, thorough: bool) {
 		kr.stats.0.insert("headers".to_string(), (main.len() - 1) as u64);
 		kr.stats.dump(out, &format!("dbwin {}", cn));
 	}
+}
+
+// ---------------------------------------------------------------------------------------------
+// roots mode: what a header commits to about its ancestors (prev_root), at every chunk position
+// ---------------------------------------------------------------------------------------------
+
+/// root of the header MMR holding exactly `headers` (genesis first)
+fn header_mmr_root(headers: &[BlockHeader]) -> Hash {
+	use grin_core::core::pmmr::{ReadablePMMR, VecBackend, PMMR};
+	let mut ba = VecBackend::<BlockHeader>::new();
+	let mut size = 0u64;
+	for h in headers {
+		let mut p = PMMR::at(&mut ba, size);
+		p.push(h).unwrap();
+		size = p.size;
+	}
+	PMMR::at(&mut ba, size).root().unwrap()
+}
+
+fn run_roots(out: &mut Out, rng: &mut Rng, thorough: bool) {
+	global::set_local_chain_type(ChainTypes::AutomatedTesting);
+	let work = std::env::var("VERIF_WORK").unwrap_or_else(|_| "/verif/work/cons-roots.d".to_string());
+	let _ = std::fs::remove_dir_all(&work);
+	std::fs::create_dir_all(&work).unwrap();
+	let kc = ExtKeychain::from_seed(&rng.bytes(32), false).unwrap();
+	let genesis = {
+		let key_id = ExtKeychain::derive_key_id(0, 1, 0, 0, 0);
+		let reward =
+			libtx::reward::output(&kc, &libtx::ProofBuilder::new(&kc), &key_id, 0, false).unwrap();
+		genesis::genesis_dev().with_reward(reward.0, reward.1)
+	};
+	let builder = open_chain(&format!("{}/builder", work), &genesis);
+	let subject = open_chain(&format!("{}/subject", work), &genesis).chain;
+	let mut kr = KnownRun {
+		stats: Stats(BTreeMap::new()),
+		roots: BTreeMap::new(),
+		oracle_fails: 0,
+		tips: vec![],
+		sync_calls: 1,
+		always_ok: false,
+		dom: "rnode",
+		full: true,
+	};
+	let id = "r";
+	// the honest chain, built ahead of the subject
+	let n_blocks: usize = if thorough { 70 } else { 37 };
+	let mut honest: Vec<Block> = vec![genesis.clone()];
+	for n in 1..=n_blocks {
+		let gap = match rng.below(4) {
+			0 => 1,
+			1 => rng.range(2, 40) as i64,
+			2 => 60,
+			_ => rng.range(30, 300) as i64,
+		};
+		let b = build_next(&builder.chain, &kc, n as u32, gap);
+		kr.roots.insert(b.header.prev_hash.to_vec(), b.header.prev_root);
+		builder.chain.process_block(b.clone(), Options::MINE).unwrap();
+		honest.push(b);
+	}
+	let hh: Vec<BlockHeader> = honest.iter().map(|b| b.header.clone()).collect();
+	out.line(&format!("cons rnode {} newct auto {}", id, kr.fhdr(&genesis.header)), "ok");
+	kr.state(out, id, &subject);
+	let kinds = ["bitflip", "sibling-chain", "one-earlier", "one-later"];
+	let mut base = 0usize;
+	let mut round = 0usize;
+	while base + 8 <= n_blocks {
+		let len = 2 + round % 7; // chunk lengths 2..8
+		round += 1;
+		let seg: Vec<BlockHeader> = hh[base + 1..=base + len].to_vec();
+		kr.stats.hit(&format!("chunk_len_{}", len));
+		// a valid sibling of the base header (another timestamp, fresh PoW): the "sibling chain"
+		let sibling = if base >= 1 {
+			let mut s = hh[base].clone();
+			let t1 = s.timestamp.timestamp() + 1;
+			set_ts(&mut s, t1);
+			if remine(&mut s) { Some(s) } else { None }
+		} else {
+			None
+		};
+		let positions: Vec<usize> = if thorough || len <= 4 {
+			(1..=len).collect()
+		} else {
+			let mut v = vec![1, (len + 1) / 2, len - 1, len];
+			v.dedup();
+			v
+		};
+		// the wrong root of kind `kind` for the header at chunk position k (1-based)
+		let wrong_root = |kind: &str, k: usize, rng: &mut Rng| -> Option<Hash> {
+			let good = seg[k - 1].prev_root;
+			match kind {
+				"bitflip" => {
+					let mut v = good.to_vec();
+					let i = rng.below(32) as usize;
+					v[i] ^= 1 << rng.below(8);
+					Some(Hash::from_vec(&v))
+				}
+				"sibling-chain" => {
+					// the MMR of a chain that differs in the header before the chunk
+					let sib = sibling.as_ref()?;
+					let mut path: Vec<BlockHeader> = hh[..base].to_vec();
+					path.push(sib.clone());
+					path.extend_from_slice(&seg[..k - 1]);
+					Some(header_mmr_root(&path))
+				}
+				"one-earlier" => {
+					if base + k < 2 {
+						return None;
+					}
+					Some(header_mmr_root(&hh[..base + k - 1]))
+				}
+				_ => Some(header_mmr_root(&hh[..base + k + 1])),
+			}
+		};
+		// the chunk with a wrong prev_root at position k and everything after it built on top
+		// of it honestly: prev_hash, prev_root (of the MMR with the bad header in it) and PoW
+		let build_alt = |k: usize, bad_root: Hash| -> Option<Vec<BlockHeader>> {
+			let mut chunk: Vec<BlockHeader> = seg[..k - 1].to_vec();
+			let mut bad = seg[k - 1].clone();
+			bad.prev_root = bad_root;
+			if !remine(&mut bad) {
+				return None;
+			}
+			chunk.push(bad);
+			for j in k..seg.len() {
+				let mut h = seg[j].clone();
+				h.prev_hash = chunk[j - 1].hash();
+				let mut path: Vec<BlockHeader> = hh[..=base].to_vec();
+				path.extend_from_slice(&chunk);
+				h.prev_root = header_mmr_root(&path);
+				if !remine(&mut h) {
+					return None;
+				}
+				chunk.push(h);
+			}
+			Some(chunk)
+		};
+		let mut one_by_one: Option<(usize, Vec<BlockHeader>)> = None;
+		for &k in positions.iter() {
+			for kind in kinds.iter() {
+				let bad_root = match wrong_root(kind, k, rng) {
+					Some(r) if r != seg[k - 1].prev_root => r,
+					_ => continue,
+				};
+				let chunk = match build_alt(k, bad_root) {
+					Some(c) => c,
+					None => continue,
+				};
+				let pos_name = if k == 1 {
+					"first"
+				} else if k == len {
+					"last"
+				} else if k == len - 1 {
+					"last-but-one"
+				} else {
+					"middle"
+				};
+				kr.stats.hit(&format!("bad_{}", pos_name));
+				kr.stats.hit(&format!("kind_{}", kind));
+				kr.stats.hit(&format!("followers_{}", len - k));
+				let before = kr.state(out, id, &subject);
+				out.raw(&format!("# roots base={} len={} bad at {} ({}) {}", base, len, k, pos_name, kind));
+				let opts = if (k + round) % 2 == 0 { Options::NONE } else { Options::SYNC };
+				let class = kr.sync(out, id, &subject, opts, &chunk);
+				let after = kr.state(out, id, &subject);
+				let stored = chunk.iter().any(|h| subject.get_block_header(&h.hash()).is_ok());
+				if class != "InvalidRoot" || before != after || stored {
+					kr.fail(out, format!("chunk of {} headers on top of height {} with a wrong prev_root ({}) at position {} ({}), later headers built on it honestly: {} stored={} before={} after={} bad={}", len, base, kind, k, pos_name, class, stored, before, after, show_stored(&chunk[k - 1])));
+				}
+				if one_by_one.is_none() && rng.chance(1, 3) {
+					one_by_one = Some((k, chunk.clone()));
+				} else if one_by_one.is_none() && k == len {
+					one_by_one = Some((k, chunk.clone()));
+				}
+			}
+		}
+		// the same headers one by one, and the blocks: the prefix is honest, the bad one is
+		// refused for its root, what follows has no parent
+		if let Some((k, chunk)) = one_by_one {
+			for (i, h) in chunk.iter().enumerate() {
+				out.raw(&format!("# roots one-by-one header {} of {} (bad at {})", i + 1, chunk.len(), k));
+				let class = kr.pbh(out, id, &subject, Options::NONE, h);
+				kr.state(out, id, &subject);
+				let want = if i + 1 < k { "ok" } else if i + 1 == k { "InvalidRoot" } else { "Orphan" };
+				kr.stats.hit(&format!("one_by_one_pbh_{}", want));
+				if class != want || (i + 1 >= k && subject.get_block_header(&h.hash()).is_ok()) {
+					kr.fail(out, format!("header {} of a run with a wrong prev_root at {} via process_block_header: {} (rule: {}) {}", i + 1, k, class, want, show_stored(h)));
+				}
+			}
+			for (i, h) in chunk.iter().enumerate() {
+				out.raw(&format!("# roots one-by-one block {} of {} (bad at {})", i + 1, chunk.len(), k));
+				let class = kr.pb(out, id, &subject, Options::NONE, h, &honest[base + 1 + i]);
+				kr.state(out, id, &subject);
+				let want = if i + 1 < k { "ok" } else if i + 1 == k { "InvalidRoot" } else { "Orphan" };
+				kr.stats.hit(&format!("one_by_one_pb_{}", want));
+				if class != want || (i + 1 >= k && subject.get_block_header(&h.hash()).is_ok()) {
+					kr.fail(out, format!("block {} of a run with a wrong prev_root at {} via process_block: {} (rule: {}) {}", i + 1, k, class, want, show_stored(h)));
+				}
+			}
+		}
+		// not a chain: a header with a wrong prev_root followed by an unrelated honest header. Only
+		// the ancestors of the LAST header are re-applied, so the batch is accepted and the wrong
+		// header is stored (never as header_head); model and implementation agree on this. A
+		// child of it is refused later.
+		if round % 2 == 0 {
+			let mut stray = seg[0].clone();
+			stray.prev_root = Hash::from_vec(&rng.bytes(32));
+			let t1 = stray.timestamp.timestamp() + 7;
+			set_ts(&mut stray, t1);
+			if remine(&mut stray) {
+				out.raw(&format!("# roots base={} unlinked batch [wrong-root header, honest header]", base));
+				let class = kr.sync(out, id, &subject, Options::NONE, &[stray.clone(), seg[0].clone()]);
+				kr.state(out, id, &subject);
+				kr.stored(out, id, &subject, &stray.hash());
+				let stored = subject.get_block_header(&stray.hash()).is_ok();
+				kr.stats.hit(&format!("unlinked_batch_{}_stored={}", class, stored));
+				let hd = subject.header_head().unwrap();
+				if hd.last_block_h == stray.hash() {
+					kr.fail(out, format!("a header with a wrong prev_root became header_head: {}", show_stored(&stray)));
+				}
+				// a child of the stray header: its own root is right for that (impossible) MMR
+				let mut child = seg[1].clone();
+				child.prev_hash = stray.hash();
+				let t2 = stray.timestamp.timestamp() + 10;
+				set_ts(&mut child, t2);
+				let mut path: Vec<BlockHeader> = hh[..=base].to_vec();
+				path.push(stray.clone());
+				child.prev_root = header_mmr_root(&path);
+				if stored && remine(&mut child) {
+					let class = kr.pbh(out, id, &subject, Options::NONE, &child);
+					kr.state(out, id, &subject);
+					kr.stats.hit(&format!("child_of_stored_wrong_root_{}", class));
+					if class != "InvalidRoot" {
+						kr.fail(out, format!("child of a stored header with a wrong prev_root: {} (rule: InvalidRoot) {}", class, show_stored(&child)));
+					}
+				}
+			}
+		}
+		// afterwards the honest chunk is accepted, and the honest blocks
+		out.raw(&format!("# roots base={} len={} honest chunk", base, len));
+		let class = kr.sync(out, id, &subject, Options::NONE, &seg);
+		kr.state(out, id, &subject);
+		let hd = subject.header_head().unwrap();
+		if !class.starts_with("ok") || hd.last_block_h != seg[len - 1].hash() {
+			kr.fail(out, format!("honest chunk of {} headers on top of height {} after the refused ones: {} header_head height {}", len, base, class, hd.height));
+		}
+		for i in 0..len {
+			let b = &honest[base + 1 + i];
+			if subject.block_exists(b.hash()).unwrap_or(false) {
+				continue;
+			}
+			let class = kr.pb(out, id, &subject, Options::NONE, &b.header, b);
+			if class != "ok" {
+				kr.fail(out, format!("honest block at height {} refused: {}", b.header.height, class));
+			}
+		}
+		kr.state(out, id, &subject);
+		let hd = subject.head().unwrap();
+		if hd.last_block_h != seg[len - 1].hash() {
+			kr.fail(out, format!("head is not the honest block at height {}", base + len));
+		}
+		base += len;
+	}
+	if kr.oracle_fails == 0 {
+		kr.stats.hit("oracle_ok");
+	}
+	kr.stats.dump(out, "roots");
 }
 
 // ---------------------------------------------------------------------------------------------
@@ -2919,6 +3195,7 @@ fn main() {
 		"known" => run_known(&mut out, &mut rng, thorough),
 		"globals" => run_globals(&mut out, &mut rng, thorough),
 		"dbwin" => run_dbwin(&mut out, &mut rng, thorough),
+		"roots" => run_roots(&mut out, &mut rng, thorough),
 		_ => {
 			eprintln!("usage: cons diff|chain");
 			std::process::exit(2);
